@@ -14,8 +14,12 @@ RECURSIVE GraphsOf(_)
 GraphsOf(n) == IF n = 0 THEN {<<>>} ELSE {Append(P, ps) : P \in GraphsOf(n - 1), ps \in ParentLists(n)}
 \* thorough tiers also feed seeded random larger graphs (<= MaxRev revisions, at most two heads) through the same
 \* modules: a JSON list of graphs in the file named by VF_GRAPHS replaces the enumeration
-Graphs == IF "VF_GRAPHS" \in DOMAIN IOEnv THEN SeqRange(JsonDeserialize(IOEnv.VF_GRAPHS))
-          ELSE UNION {GraphsOf(m) : m \in MinRev..MaxRev}
+\* VF_EXTRA names a JSON list of LONG graphs (more than MaxRev revisions, e.g. 40) that are added to the universe: they
+\* are used with their heads as tips only and are always exported (never sampled away)
+Extra == IF "VF_EXTRA" \in DOMAIN IOEnv THEN SeqRange(JsonDeserialize(IOEnv.VF_EXTRA)) ELSE {}
+Graphs == (IF "VF_GRAPHS" \in DOMAIN IOEnv THEN SeqRange(JsonDeserialize(IOEnv.VF_GRAPHS))
+           ELSE UNION {GraphsOf(m) : m \in MinRev..MaxRev}) \cup Extra
+IsLong(P) == Len(P) > MaxRev
 \* every revision is an ancestor of a head (a revision that is nobody's parent), so (t, s) covers P iff {t, s} contains
 \* all heads: no ancestry computation is needed to enumerate the universe
 HeadsOfGraph(P) == DOMAIN P \ UNION {ParentSet(P, r) : r \in DOMAIN P}
@@ -25,11 +29,14 @@ PairsOf(P) == LET h == HeadsOfGraph(P)
               IN IF Cardinality(h) = 1 THEN LET x == CHOOSE y \in h : TRUE IN {<<x, y>> : y \in 0..Len(P)} \cup {<<y, x>> : y \in 0..Len(P)}
                  ELSE {<<x, y>> \in h \X h : x # y}
 \* (filters over products, not UNIONs of many small sets: TLC's UNION is quadratic in the number of sets)
-Triples == {x \in Graphs2 \X (0..MaxRev) \X (0..MaxRev) : <<x[2], x[3]>> \in PairsOf(x[1])}
+Triples == {x \in {P \in Graphs2 : ~IsLong(P)} \X (0..MaxRev) \X (0..MaxRev) : <<x[2], x[3]>> \in PairsOf(x[1])}
+MaxLen == SetMax({Len(P) : P \in Graphs2})
 \* branches: a graph, a tip, and the other tips s that make (t, s) a covering pair
-Branches == {x \in Graphs2 \X (1..MaxRev) : \E p \in PairsOf(x[1]) : p[1] = x[2]}
-TipsOf(P) == {p[1] : p \in PairsOf(P)} \ {Null}
-OthersOf(P, t) == {p[2] : p \in {q \in PairsOf(P) : q[1] = t}}
+TipsOf(P) == IF IsLong(P) THEN HeadsOfGraph(P) ELSE {p[1] : p \in PairsOf(P)} \ {Null}
+Branches == {x \in Graphs2 \X (1..MaxLen) : x[2] \in TipsOf(x[1])}
+OthersOf(P, t) == IF IsLong(P) THEN (HeadsOfGraph(P) \ {t}) \cup {Null} ELSE {p[2] : p \in {q \in PairsOf(P) : q[1] = t}}
 Sample(S) == LET all == SetToSeq(S) IN {all[k] : k \in {j \in DOMAIN all : (j + Offset) % Stride = 0}}
+SmallOnly(S) == {x \in S : ~IsLong(x.par)}
+Picked(S) == Sample(SmallOnly(S)) \cup (S \ SmallOnly(S))
 B2N(b) == IF b THEN 1 ELSE 0
 =============================================================================
